@@ -1712,3 +1712,123 @@ def normalize(tree):
     n.counts['search_loops_to_any'] = search_loops_to_any(tree)
     n.counts['enumerate_dropped'] = drop_unused_enumerate(tree)
     return tree, n.counts
+
+
+def value_objects_to_locals(tree):
+    """N48 - a local value object: `v = Cls(a, b)` where Cls is a class of this module whose __init__ only stores its parameters (`self.x = x`), v is bound
+    once in the function and used only through attribute reads `v.x` of those stored fields (the method calls on it have been inlined before): every `v.x`
+    is the constructor argument itself.  Applied when each argument is a constant or a name that is not re-bound after the construction."""
+    classes = {c.name: c for c in tree.body if isinstance(c, ast.ClassDef)}
+    fields = {}
+    for name, c in classes.items():
+        init = next((m for m in c.body if isinstance(m, ast.FunctionDef) and m.name == '__init__'), None)
+        if init is None or init.args.vararg or init.args.kwarg or init.args.kwonlyargs:
+            continue
+        params = [a.arg for a in init.args.args][1:]
+        mapping, ok = {}, True
+        for st in init.body:
+            if isinstance(st, ast.Expr) and isinstance(st.value, ast.Constant):
+                continue
+            if isinstance(st, ast.Assign) and len(st.targets) == 1 and isinstance(st.targets[0], ast.Attribute) and isinstance(st.targets[0].value, ast.Name) \
+                    and st.targets[0].value.id == 'self' and isinstance(st.value, ast.Name) and st.value.id in params:
+                mapping[st.targets[0].attr] = st.value.id
+            else:
+                ok = False
+        # no other method may write the fields
+        for m in c.body:
+            if isinstance(m, ast.FunctionDef) and m.name != '__init__':
+                for n in ast.walk(m):
+                    if isinstance(n, ast.Attribute) and isinstance(n.ctx, (ast.Store, ast.Del)) and isinstance(n.value, ast.Name) and n.value.id == 'self':
+                        ok = False
+        if ok and mapping:
+            fields[name] = (params, init.args.defaults, mapping)
+    if not fields:
+        return 0
+    count = 0
+    for f in [n for n in ast.walk(tree) if isinstance(n, (ast.FunctionDef, ast.AsyncFunctionDef))]:
+        own = [n for st in f.body for n in _walk_own_stmt(st)]
+        for st in own:
+            if not (isinstance(st, ast.Assign) and len(st.targets) == 1 and isinstance(st.targets[0], ast.Name) and isinstance(st.value, ast.Call)
+                    and isinstance(st.value.func, ast.Name) and st.value.func.id in fields):
+                continue
+            v = st.targets[0].id
+            params, defaults, mapping = fields[st.value.func.id]
+            if any(isinstance(a, ast.Starred) for a in st.value.args) or any(k.arg is None for k in st.value.keywords):
+                continue
+            bound = dict(zip(params, st.value.args))
+            bound.update({k.arg: k.value for k in st.value.keywords})
+            for p_, d_ in zip(params[len(params) - len(defaults):], defaults):
+                bound.setdefault(p_, d_)
+            if set(mapping.values()) - set(bound):
+                continue
+            stores = [n for n in own if isinstance(n, ast.Name) and n.id == v and isinstance(n.ctx, (ast.Store, ast.Del))]
+            if len(stores) != 1:
+                continue
+            uses = [n for n in own if isinstance(n, ast.Name) and n.id == v and isinstance(n.ctx, ast.Load)]
+            attr_uses = [n for n in own if isinstance(n, ast.Attribute) and isinstance(n.value, ast.Name) and n.value.id == v and isinstance(n.ctx, ast.Load) and n.attr in mapping]
+            if len(uses) != len(attr_uses) or not uses:
+                continue
+            # every argument: a constant, or a name bound at most once in the function (parameter or single assignment) and not after the construction
+            okargs = True
+            for fld, par in mapping.items():
+                a = bound[par]
+                if isinstance(a, ast.Constant):
+                    continue
+                if not isinstance(a, ast.Name):
+                    okargs = False
+                    break
+                later = [n for n in own if isinstance(n, ast.Name) and n.id == a.id and isinstance(n.ctx, (ast.Store, ast.Del)) and (n.lineno, n.col_offset) > (st.lineno, st.col_offset)]
+                if later:
+                    okargs = False
+                    break
+            if not okargs:
+                continue
+            import copy as _copy
+
+            class _Sub(ast.NodeTransformer):
+                def visit_Attribute(self, node):
+                    self.generic_visit(node)
+                    if isinstance(node.value, ast.Name) and node.value.id == v and isinstance(node.ctx, ast.Load) and node.attr in mapping:
+                        return ast.copy_location(_copy.deepcopy(bound[mapping[node.attr]]), node)
+                    return node
+            _Sub().visit(f)
+            # the construction itself is dropped (its value is no longer read)
+            class _Drop(ast.NodeTransformer):
+                def visit_Assign(self, node):
+                    return None if node is st else node
+            _Drop().visit(f)
+            for n in ast.walk(f):
+                for fld in ('body', 'orelse', 'finalbody'):
+                    if isinstance(getattr(n, fld, None), list) and not getattr(n, fld) and fld == 'body':
+                        n.body = [ast.Pass()]
+            count += 1
+    return count
+
+
+def _walk_own_stmt(st):
+    """nodes of a statement, nested function / class bodies excluded"""
+    todo = [st]
+    while todo:
+        n = todo.pop()
+        yield n
+        for c in ast.iter_child_nodes(n):
+            if isinstance(c, (ast.FunctionDef, ast.AsyncFunctionDef, ast.ClassDef, ast.Lambda)):
+                continue
+            todo.append(c)
+
+
+def immediate_partials_to_calls(tree):
+    """N45b  `partial(F, a, k=b)(x, m=y)` - a partial application that is called on the spot - is the call `F(a, x, k=b, m=y)`"""
+    count = [0]
+
+    class T(ast.NodeTransformer):
+        def visit_Call(self, node):
+            self.generic_visit(node)
+            c = node.func
+            if isinstance(c, ast.Call) and ast.unparse(c.func) in ('partial', 'functools.partial') and c.args and not any(isinstance(a, ast.Starred) for a in c.args) \
+                    and not any(kw.arg is None for kw in c.keywords + node.keywords) and not ({kw.arg for kw in c.keywords} & {kw.arg for kw in node.keywords}):
+                count[0] += 1
+                return ast.copy_location(ast.Call(func=c.args[0], args=list(c.args[1:]) + list(node.args), keywords=list(c.keywords) + list(node.keywords)), node)
+            return node
+    T().visit(tree)
+    return count[0]
